@@ -99,7 +99,7 @@ def apalache_inductive(module, qmax, timeout=900):
     if _sh.which("apalache-mc") is None: return None, "apalache-mc not installed"
     scratch = tempfile.mkdtemp(prefix="vapa_", dir=os.environ.get("VERIF_TMP", "/tmp"))
     try:
-        src = open(os.path.join(SPEC, module)).read()
+        src = open(os.path.join(SPEC, "apalache", module)).read()      # kept apart: SANY / TLC have no Apalache.tla, setup parses spec/*.tla
         src = re.sub(r"^QMax == \d+", "QMax == %d" % qmax, src, flags=re.M)
         open(os.path.join(scratch, module), "w").write(src)
         outs = []
